@@ -86,7 +86,7 @@ Fixpoint ddecl (e : expr) : list name :=
   | ECall f args => ddecl f ++ flat_map ddecl args
   | EChain a ops => ddecl a ++ flat_map (fun p => ddecl (fst p) ++ ddecl (snd p)) ops
   | EList es => flat_map ddecl es
-  | EImport e1 => ddecl e1
+  | EImport _ => []
   end.
 
 Definition pat_names (p : pat) : list name :=
@@ -317,8 +317,6 @@ Definition pat_match (p : pat) (v : val) : tri (list (name * val)) :=
               end
   end.
 
-Definition fres := (state * list val * res unit)%type.
-
 Section WithRec.
   Variable prot : protection.
   Variable rec : state -> nat -> expr -> result val.
@@ -382,64 +380,42 @@ Section WithRec.
     end.
 
   (* evaluate_for: one pass per element, each in a fresh child frame of the frame the clause was
-     entered in; `k` is the rest of the clause list *)
-  Fixpoint for_each (k : state -> nat -> list val -> fres) (cur : nat) (bud : list name) (x : name)
-           (l : list val) (st : state) (acc : list val) : fres :=
+     entered in; `k` is the rest of the clause list; the accumulator is the list of yielded values *)
+  Fixpoint for_each (k : state -> nat -> list val -> result (list val)) (cur : nat) (bud : list name)
+           (x : name) (l : list val) (st : state) (acc : list val) : result (list val) :=
     match l with
-    | [] => (st, acc, Val tt)
+    | [] => ret st acc
     | v :: l' =>
         let '(st1, fr) := push_frame st cur bud in
-        match declare_all st1 fr [(x, v)] with
-        | (st2, Val _) =>
-            match k st2 fr acc with
-            | (st3, acc', Val _) => for_each k cur bud x l' st3 acc'
-            | r => r
-            end
-        | (st2, Sig s) => (st2, acc, Sig s)
-        | (st2, OutOfFuel) => (st2, acc, OutOfFuel)
-        end
+        bindR (declare_all st1 fr [(x, v)]) (fun st2 _ =>
+          bindR (k st2 fr acc) (fun st3 acc' => for_each k cur bud x l' st3 acc'))
     end.
 
-  Fixpoint eval_for (bud : list name) (cls : list clause) (cb : state -> nat -> list val -> fres)
-           (st : state) (cur : nat) (acc : list val) : fres :=
+  Fixpoint eval_for (bud : list name) (cls : list clause) (cb : state -> nat -> list val -> result (list val))
+           (st : state) (cur : nat) (acc : list val) : result (list val) :=
     match cls with
     | [] => cb st cur acc
     | (k, x, e) :: rest =>
-        match rec st cur e with
-        | (st1, Val v) =>
-            match k with
-            | KGuard => if truthy v then eval_for bud rest cb st1 cur acc else (st1, acc, Val tt)
-            | KLet => for_each (eval_for bud rest cb) cur bud x [v] st1 acc
-            | KIter =>
-                match iter_elems v with
-                | TOk l => for_each (eval_for bud rest cb) cur bud x l st1 acc
-                | TThrow => (st1, acc, Sig (SThrow VErr))
-                | TUnsupp => (st1, acc, Sig SUnsupp)
-                end
-            end
-        | (st1, Sig s) => (st1, acc, Sig s)
-        | (st1, OutOfFuel) => (st1, acc, OutOfFuel)
-        end
+        bindR (rec st cur e) (fun st1 v =>
+          match k with
+          | KGuard => if truthy v then eval_for bud rest cb st1 cur acc else ret st1 acc
+          | KLet => for_each (eval_for bud rest cb) cur bud x [v] st1 acc
+          | KIter =>
+              match iter_elems v with
+              | TOk l => for_each (eval_for bud rest cb) cur bud x l st1 acc
+              | TThrow => throw_err st1
+              | TUnsupp => unsupported st1
+              end
+          end)
     end.
 
-  Definition for_body (yield : bool) (body : expr) (st : state) (fr : nat) (acc : list val) : fres :=
-    match rec st fr body with
-    | (st1, Val v) => (st1, if yield then acc ++ [v] else acc, Val tt)
-    | (st1, Sig s) => (st1, acc, Sig s)
-    | (st1, OutOfFuel) => (st1, acc, OutOfFuel)
-    end.
-
-  Definition for_result (yield : bool) (r : fres) : result val :=
-    match r with
-    | (st, acc, Val _) => ret st (if yield then VList acc else VNull)
-    | (st, _, Sig s) => (st, Sig s)
-    | (st, _, OutOfFuel) => (st, OutOfFuel)
-    end.
+  Definition for_body (yield : bool) (body : expr) (st : state) (fr : nat) (acc : list val) : result (list val) :=
+    bindR (rec st fr body) (fun st1 v => ret st1 (if yield then acc ++ [v] else acc)).
 
   Definition eval_for_expr (st : state) (cur : nat) (x : name) (e : expr) (cls : list clause)
              (yield : bool) (body : expr) : result val :=
-    for_result yield
-      (eval_for (for_budget x cls body) ((KIter, x, e) :: cls) (for_body yield body) st cur []).
+    bindR (eval_for (for_budget x cls body) ((KIter, x, e) :: cls) (for_body yield body) st cur [])
+          (fun st1 acc => ret st1 (if yield then VList acc else VNull)).
 
   (* Switch: every arm is tried in its own fresh frame *)
   Fixpoint eval_arms (st : state) (cur : nat) (v : val) (arms : list (pat * expr)) : result val :=
